@@ -835,6 +835,9 @@ func c08Exhaustive(g *Gen) {
 					continue
 				}
 				for pos := 0; pos < 5; pos++ {
+					if pos == 2 && k == "u8" { // []uint8 is []byte, not a list
+						continue
+					}
 					var f c08Field
 					var v *c08Val
 					for { // c08Wrap draws its own values: overwrite them with the edge
